@@ -290,19 +290,25 @@ func monitors(s *lstore.Store) {
 }
 
 func firstWords(s string) string {
-	n := 0
-	for i, c := range s {
-		if c == ' ' {
-			n++
-			if n == 4 {
-				return s[:i]
-			}
+	// stable signature: digits replaced, first sentence, bounded length
+	var b []byte
+	prevHash := false
+	for i := 0; i < len(s) && len(b) < 110; i++ {
+		c := s[i]
+		if c == '\n' || c == '(' {
+			break
 		}
 		if c >= '0' && c <= '9' {
-			return s[:i]
+			if !prevHash {
+				b = append(b, '#')
+			}
+			prevHash = true
+			continue
 		}
+		prevHash = false
+		b = append(b, c)
 	}
-	return s
+	return string(b)
 }
 
 func seqBody(g lstore.Geometry, depth int) func() {
